@@ -331,7 +331,7 @@ impl Prop for C12 {
     fn runs(&self, tier: Tier) -> u64 {
         match tier {
             Tier::Quick => 40_000,
-            Tier::Thorough => 3_000_000,
+            Tier::Thorough => 1_500_000,
         }
     }
     fn rule(&self) -> &'static str {
